@@ -61,16 +61,38 @@ def const_val(p):
     return p.get((), 0)
 
 
+_MODULE = [None]
+
+
+class using_module:
+    """Context manager: while active, integer constants of the module and
+    calls to its straight-line helper functions are expanded by poly()."""
+
+    def __init__(self, module):
+        self.module = module
+
+    def __enter__(self):
+        self.prev = _MODULE[0]
+        _MODULE[0] = self.module
+
+    def __exit__(self, *a):
+        _MODULE[0] = self.prev
+
+
 def poly(node, subst=None, depth=0):
     """Polynomial normal form of an AST expression.  `subst` maps local names
     to AST expressions that replace them (one level of definitions)."""
     subst = subst or {}
+    mod = _MODULE[0]
     c = const_int(node)
     if c is not None:
         return const(c)
     if isinstance(node, ast.Name):
         if node.id in subst and depth < 4:
             return poly(subst[node.id], subst, depth + 1)
+        if mod is not None and node.id in mod.constants and \
+                const_int(mod.constants[node.id]) is not None:
+            return const(const_int(mod.constants[node.id]))
         return atom(node.id)
     if isinstance(node, ast.UnaryOp) and isinstance(node.op, ast.USub):
         return _pmul(const(-1), poly(node.operand, subst, depth))
@@ -112,6 +134,12 @@ def poly(node, subst=None, depth=0):
         nm = dotted(node.func) or ""
         short = nm.split(".")[-1]
         args = node.args
+        if mod is not None and nm in mod.functions and depth < 4 and \
+                short != "ceil_div":
+            from .dataflow import inline_helper_call
+            inl = inline_helper_call(node, mod.functions[nm].node)
+            if inl is not None:
+                return poly(inl, subst, depth + 1)
         if short in ("min", "max") and len(args) >= 2:
             items = sorted(pstr(poly(a, subst, depth)) for a in args)
             return atom("%s(%s)" % (short.upper(), ", ".join(items)))
